@@ -297,8 +297,8 @@ def run_check(prop: str, spec: dict) -> int:
         "wall_s": round(time.time() - t0, 2),
         "violations": violations,
         "coverage": {
-            "obligations": max(obligations, 1),
-            "discharged": max(obligations, 1) if build_ok else 0,
+            **({"obligations": max(obligations, 1), "discharged": max(obligations, 1)} if build_ok
+               else {"proof_build_failed": True}),
             "checker_cmd": f"cd /verif/coq && coq_makefile -f _CoqProject -o Makefile && make {target}o"
                            f"  (coqc 8.16.1, full .vo build) ; Print Assumptions on {len(spec['theorems'])} theorems",
             "trusted_base": ["Coq 8.16.1 kernel (coqc; vm_compute for correspondence evaluation)"]
